@@ -595,7 +595,8 @@ pub fn run_check(ctx: &Ctx) -> i32 {
     }
     // a handshake that starts late in the window's life, the window expiring (just) before the delivery of
     // each of its datagrams, with and without the application's expiry poll; and the late handshake alone
-    for delay in [240u64, 280, 299] {
+    let delays: Vec<u64> = if ctx.deep() { (236..=296u64).step_by(4).chain([298, 299]).collect() } else { vec![240, 280, 299] };
+    for delay in delays {
         for poll in [false, true] {
             specs.push(RunSpec { start_delay_s: delay, poll, ..base.clone() });
             for t in &drops {
@@ -647,9 +648,9 @@ pub fn run_check(ctx: &Ctx) -> i32 {
         .set("exhaustive", json!(true))
         .set("samples", json!([spec_json(&specs[specs.len() / 2]), spec_json(&specs[specs.len() - 1])]))
         .set("vacuity", json!({"runs": executed, "mutations_not_applicable": na, "runs_with_a_device_session": with_session, "runs_without": without, "runs_in_which_failures_were_counted": failures_counted, "distinct_end_states": outcomes.len()}))
-        .set("rule", json!("passcode catalog x {window, no window}; second concurrent initiator; 19/20/21 wrong attempts; every single attacker move of the C01 catalog on every PASE datagram (thorough: every bit); 9 special / invalid curve points in place of pA and pB; window close / close-and-reopen / expiry placed before the delivery of each handshake datagram (with and without a second initiator; thorough: crossed with the loss of each datagram). 'states' = distinct (sessions, results, window state, failure counter) end states"));
+        .set("rule", json!("passcode catalog x {window, no window}; second concurrent initiator; 19/20/21 wrong attempts; every single attacker move of the C01 catalog on every PASE datagram (thorough: every bit); 9 special / invalid curve points in place of pA and pB; window close / close-and-reopen / expiry placed before the delivery of each handshake datagram (with and without a second initiator; thorough: crossed with the loss of each datagram); handshakes starting 240 / 280 / 299 s (thorough: every 4 s from 236 to 296 s, 298 and 299 s) into the 300 s window with the window expiring just before the delivery of each of their datagrams, with and without the expiry poll. 'states' = distinct (sessions, results, window state, failure counter) end states"));
     ev.assume("cryptographic hardness of SPAKE2+ / PBKDF2 is assumed");
-    ev.assume("expiry polling (`InteractionModel::run`) is not part of this harness: an expired window is closed at the next PASE request; the advertisement check therefore compares against `comm_window_state()` at every step");
+    ev.assume("the expiry poll of `InteractionModel::run` is represented by the harness calling `Pase::check_comm_window_timeout` after every step in the scenarios marked `poll`; in the others an expired window is closed at the next PASE request; the advertisement check compares against `comm_window_state()` at every step, session births are judged against the harness's own account of the window and the clock");
     if report.violations.is_empty() && (executed == 0 || with_session == 0 || without == 0 || failures_counted == 0) {
         eprintln!("MACHINERY: vacuous C02 run");
         return 2;
